@@ -10,6 +10,8 @@ symmetric correlation functions in either space, and also uses converged solutio
 import itertools
 import sys
 
+import copy
+
 import numpy as np
 
 import pyPRISM
@@ -307,7 +309,7 @@ def cases(ctx):
         if it % 14 == 13:
             yield {'kind': 'solved', 'rank': int(rng.choice([2, 2, 3])), 'seed': int(rng.integers(0, 2 ** 31))}
         else:
-            yield {'kind': 'hand', 'rank': int(rng.choice([1, 2, 2, 3, 3, 4])), 'L': int(rng.choice([32, 48, 64, 100, 128, 256])), 'dr': float(rng.choice([0.1, 0.05, 0.2])),
+            yield {'kind': 'hand', 'rank': int(rng.choice([1, 2, 2, 3, 3, 4])), 'L': int(rng.choice([32, 48, 64, 100, 128, 256, 3, 4, 5])), 'dr': float(rng.choice([0.1, 0.05, 0.2])),
                    'spaceH': str(rng.choice(['Fourier', 'Real'])), 'spaceC': str(rng.choice(['Fourier', 'Fourier', 'Real'])), 'spaceW': str(rng.choice(['Fourier', 'Fourier', 'Fourier', 'Real'])), 'equal_d': bool(rng.random() < 0.5),
                    'seed': int(rng.integers(0, 2 ** 31))}
 
@@ -425,6 +427,9 @@ def run_case(ctx, case):
         if res is None or not res.success:
             raise __import__('pvmon').core.Skip('solve did not converge')
         done = judge_solved(ctx, p, sp, res, rng)
+        # a deep copy of the solved object (kept for later, handed to another routine) is a solved object like any other
+        ctx.hook('solved.deepcopy_judged')
+        judge_solved(ctx, copy.deepcopy(p), sp, res, rng)
         ctx.nontrivial(case)
         ctx.count('object', 'solved/rank%d' % len(sp['types']))
         return
